@@ -717,6 +717,10 @@ class Exec:
             c = s.truth(s.ev(st, e.args[0])); a, b = s.ev(st, e.args[1]), s.ev(st, e.args[2]); return SV(If(c, a.t, b.t), a.ty)
         if n == 'sel':      # sel(arr, i)
             a, i = s.ev(st, e.args[0]), s.ev(st, e.args[1]); return SV(Select(a.t, i.t), getattr(a, 'ety', INT))
+        if n == 'upd':      # upd(arr, i, v): the array with one entry replaced
+            a, i, v = s.ev(st, e.args[0]), s.ev(st, e.args[1]), s.ev(st, e.args[2]); r = SV(Store(a.t, i.t, v.t), IARR)
+            if hasattr(a, 'ety'): r.ety = a.ety
+            return r
         if n == 'elems':    # elems(list) -> ghost array of its elements
             l = s.ev(st, e.args[0]); r = SV(s.lelem(st.heap, l), IARR); r.ety = l.ty.arg; return r
         if n == 'fld':
@@ -768,6 +772,8 @@ class Exec:
         kind = args[0].value
         if kind == 'assert':
             g = s.spec_bool(st, args[1]); s.oblige_force(st, f'ghost-assert[{ast.unparse(args[1])[:140]}]', g); st.pc.append(g); st.hints.append(g); return
+        if kind in ('use', 'use_if'):
+            s.use_lemma(st, ast.Call(func=ast.Name(id=kind, ctx=ast.Load()), args=list(args[1:]), keywords=[]), 'ghost'); return
         if kind == 'let':
             st.env[args[1].value] = s.spec_ev(st, args[2]); return
         if kind == 'letarr':
@@ -1421,6 +1427,7 @@ class Spec:
                             c.local_types = getattr(c, 'local_types', {})
                             for k in call.keywords: c.local_types[k.arg] = parse_ann(k.value, {})
                         elif kind == 'after_stmt': c.after_stmt.setdefault(ast.unparse(ast.parse(call.args[0].value).body[0]), []).append(call.args[1:])
+                        elif kind == 'exit_assert': c.exit_asserts = getattr(c, 'exit_asserts', []) + list(call.args)
                         elif kind == 'ghost_assert': c.asserts.setdefault(call.args[0].value, []).extend(call.args[1:])
                         elif kind == 'raises':
                             c.raises.append(call.args)
@@ -1512,6 +1519,12 @@ def generate(ex, owner, name, kind=None):
             body = ex.spec_ev(o3, lam.body); o2.defs = o3.defs
             na = fresh('ghost_' + fld, IA); o2.defs.append(ForAll([kv], Select(na, kv) == body.t))
             ex.write(o2, slf.t, slf.ty.arg, fld, na)
+        for e in getattr(c, 'exit_asserts', []):      # proof steps at every normal exit: lemma uses and intermediate assertions (proved, then assumed)
+            if not ex.uses(e): continue
+            if isinstance(e, ast.Call) and getattr(e.func, 'id', None) in ('use', 'use_if'): ex.use_lemma(o2, e, f'exit-path{npath}'); continue
+            g_ = ex.spec_bool(o2, e)
+            if ex.proves(e): ex.oblige(o2, f'exit-assert[{ast.unparse(e)[:120]}]#path{npath}', g_, 'ghost')
+            o2.pc.append(g_); o2.hints.append(g_)
         if ex.aspect is not None:      # clauses of the default aspect are proved in the default pass and may be assumed here
             for e in c.ensures:
                 if ex.uses(e) and not ex.proves(e): o2.pc.append(ex.spec_bool(o2, e))
